@@ -7,6 +7,7 @@ CONSTANTS
   ScalarRule = "fill_is_unset"
   ListRule = "own_file"
   DfltSpace <- AllDflt
+  ArrSpace <- ArrForms
   LayoutSpace <- Layouts
   D = 100
 CONSTRAINT EmitRead
